@@ -59,7 +59,7 @@ CHECKS.update({
                 text='Object-tree model of all combinators (constructor-time .size bookkeeping, child draw order, Static capture, Filter size updates, Mesh flattening, operator forms). Theorems: concat appends / size = sum; ensemble juxtaposes; mesh = all combinations exactly once in row-major order, size = product, nested meshes flattened; transform maps rows; filter keeps exactly passing rows and updates its size; resample rows come from one draw (distinct without replacement); static/predefined constant; sampler shape; rows stay paired for every tree; size = rows under SizeStable, with decide-witnesses of the stale-size finding. Correspondence: random trees to depth 4 (+ exhaustive depth <= 2 thorough) over spy leaves, values, shapes and every node size compared exactly.',
                 note='Known finding: composite .size stale over a size-changing FilterGenerator.'),
     'C16': dict(engine='state', technique=TB, design='§7 C16',
-                text='Model of condition callbacks (epoch predicates, repeated-metric family with so_far state, and/or/not/xor with short-circuiting), actions (stop, set-once loss/optimiser, Eve) and the fit loop. Theorems: evaluation of any pure tree = Boolean semantics; period/interval/first/last iff-characterisations (Python % = Int.emod); repeated-metric fires iff the last n steps satisfy the step predicate; action runs iff condition; stop ends the call after the current epoch; set-once/reset counts; SetOptimizer registers each distinct parameter once; Eve formula over ℝ (Mathlib logb/floor) under the stated boundary hypothesis. Correspondence inside real fit(): exhaustive truth tables (depth 2 quick / 3 thorough), fit sequences, scripted metric histories.',
+                text='Model of condition callbacks (epoch predicates, repeated-metric family with so_far state, and/or/not/xor with short-circuiting), actions (stop, set-once loss/optimiser, Eve) and the fit loop. Theorems: evaluation of any pure tree = Boolean semantics; period/interval/first/last iff-characterisations (Python % = Int.emod); repeated-metric fires iff the last n steps satisfy the step predicate; action runs iff condition; stop ends the call after the current epoch; set-once/reset counts; SetOptimizer registers each distinct parameter once; Eve formula over ℝ (Mathlib logb/floor) under the stated boundary hypothesis, for every base double_at ≠ 1 (below or above 1). Correspondence inside real fit(): exhaustive truth tables (depth 2 quick / 3 thorough), fit sequences, scripted metric histories.',
                 note='Boolean composition with stateful repeated-metric predicates is outside the property\'s quantifier and not checked.'),
     'C18': dict(engine='state', technique=TB, design='§7 C18',
                 text='Model of save/load on the solver observables. Theorems: save changes nothing but the training generator position; load restores networks, best networks, lowest loss (given the C05 invariant), histories, global epoch, optimiser kind, loss function; the C05 invariant survives load and any further fits, for any number of save/load/fit cycles; decide-witness that the pre-repair load (lowest_loss not restored) breaks tracking. Correspondence: scripted save/load/fit cycles vs the model (exact), plus real networks/conditions/optimisers with dill as installed (save raises: solver must be untouched) and with byref=True (round trip).',
